@@ -177,12 +177,19 @@ class Spinner:
         self._junk = []
         self._debug = debug
         self._spinning = False
+        self._stop_requested = False
 
     def _cancel_timeout(self):
         if self._timeout_call:
             self._timeout_call.cancel()
 
     def _get_result(self):
+        if self._stop_requested:
+            # Somebody asked the reactor to stop (SIGINT, most likely) while
+            # we were spinning.  Whatever else was due in that same turn of
+            # the reactor - the timeout, the end of the function's callback
+            # chain - the run was interrupted.
+            raise NoResultError()
         if self._failure is not self._UNSET:
             self._failure.raiseException()  # type: ignore
         if self._success is not self._UNSET:
@@ -206,6 +213,7 @@ class Spinner:
 
         Spinner never calls this method.
         """
+        self._stop_requested = True
         self._reactor.crash()
 
     def _stop_reactor(self, ignored=None):
@@ -301,6 +309,7 @@ class Spinner:
                 raise StaleJunkError(junk)
             # Forget the outcome of any previous run.
             self._success = self._failure = self._UNSET
+            self._stop_requested = False
             self._save_signals()
             self._timeout_call = self._reactor.callLater(
                 timeout, self._timed_out, function, timeout
@@ -345,6 +354,13 @@ class Spinner:
                 self._spinning = True
                 self._reactor.run()
             finally:
+                # A stop request that arrived while the code that ended the
+                # run was executing is still waiting in the reactor's queue.
+                # It is this run's, not the next one's.
+                queue = getattr(self._reactor, "threadCallQueue", None)
+                if queue and any(call[0] is fake_stop for call in queue):
+                    queue[:] = [call for call in queue if call[0] is not fake_stop]
+                    self._stop_requested = True
                 self._current_run = None
                 self._reactor.stop = real_stop
                 self._restore_signals()
